@@ -595,8 +595,13 @@ def nearmiss_case(draw, leaves):
         if idx:
             del lex[draw(st.sampled_from(idx))]
     elif kind == "unclosed_quote":
-        q = draw(st.sampled_from(["'", '"', "`"]))
-        lex.insert(draw(st.integers(0, len(lex))), q + "abc")
+        # an opening quote that is never closed - also one that is "closed" by the other quotation mark
+        junk = draw(st.sampled_from(["'abc", '"abc', "`abc", "'abc\"", "\"abc'", "'abc`"]))
+        idx = [i for i, t in enumerate(toks) if t[0] == "IDENTIFIER" and (i + 1 == len(toks) or toks[i + 1][0] not in ("LEFT_PAREN", "LEFT_BRACKET"))]
+        if idx and draw(st.booleans()):
+            lex[draw(st.sampled_from(idx))] = junk  # in the place of an operand, where a string would be a sentence
+        else:
+            lex.insert(draw(st.integers(0, len(lex))), junk)
     return {"formula": " ".join(lex), "domain": "nearmiss:" + kind}
 
 
